@@ -59,6 +59,32 @@ Proved for ALL directories satisfying `GoodFS`, ALL pools of well-typed builders
                                     `runPrefix_runSched`: so are the crash prefixes the driver executes);
 * `offline_safe`, `offline_partial_tmp_is_error`  offline: error or the complete content of an entry;
 * `coalescing_transparent`          flightCache / sync.Once tables are memo tables (C08's lemma).
+
+The glue around the ETag-addressed entries (`Apko/Model/CacheGlue.lean`, lemmas in `Lemmas/CacheGlue.lean`): which entry
+answers a request — HEAD memo of the `*apk.Cache` value, entry look-up, download, offline look-up — over EVERY legal
+history of repository updates, requests through any number of cache objects (with or without a memo), cut
+connections, offline requests and process exits, for EVERY configuration that keys the memo injectively and returns
+the copy error:
+* `glue_entries_authentic`          the transparency invariant: every advertised etag entry holds the COMPLETE body
+                                    served under that ETag for a URL of its directory, every remembered HEAD answer is
+                                    an ETag served for the URL it is remembered for;
+* `glue_answer_authentic`           a request through the cache returns a complete body served under THAT url, or an
+                                    error (never another URL's body, never a short one);
+* `glue_build_transparent`, `glue_default_transparent`  a build through a cache object whose memo is current (made for
+                                    the build) or that has no memo (`options.Default.SharedCache`) is answered exactly
+                                    like the cache-less build, after any history;
+* `glue_cut_advertises_nothing`     a cut connection advertises nothing;
+* `offline_authentic_partial`       offline: error or a complete body once served under the requested URL — for URLs
+                                    with an entry directory of their own; the full statement `offline_authentic` is
+                                    REFUTED for keys sharing a remote directory (`offline_shared_directory_confuses_keys`)
+                                    and so is the online statement under the per-URL server assumption
+                                    (`same_etag_collision`): finding F19d, replayed by corpus/cache/F19d-*.json;
+* `shared_memo_is_stale`, `memo_keyed_by_directory_confuses_urls`, `lost_copy_error_poisons`,
+  `offline_served_partial_tmp_before_fix`  the same model with one choice changed (a memo-bearing process-wide
+                                    default cache; the memo keyed by the entry directory; the copy error lost; F19e
+                                    before the fix) breaks the statements — the ties `tie_new_cache_sites`,
+                                    `tie_head_memo_key`, `tie_copy_error_kept`, `tie_offline_skips_tmp` pin the code to
+                                    the good choices.
 -/
 import Apko.Model.Cache
 import Apko.Model.Memo
@@ -1147,7 +1173,7 @@ theorem glue_answer_authentic (cfg : Cfg) (hk : MemoKeyInj cfg) (hce : cfg.copyE
     (hl : Legal cfg evs {}) (c : CacheId) (m : Bool) (u : Url) (cut : Bool) (b : Body) (compl : Bool)
     (h : (fetch cfg (run cfg evs {}) c m u cut).2 = some (b, compl)) :
     compl = true ∧ ∃ e, (u, e, b) ∈ (run cfg evs {}).srv :=
-  (fetch_spec hk hce (run_inv hk hce evs {} (inv_empty cfg) hl) c m u cut).2.2 b compl h
+  (fetch_spec hk hce (run_inv hk hce evs {} (inv_empty cfg) hl) c m u cut).2.2.2 b compl h
 
 /-- **a build is transparent**: after any history, the requests of one build (keyring entries, index) through a
 cache object whose memo holds current ETags only — a cache object made for this build (`memoCurrent_fresh`), any
@@ -1171,6 +1197,18 @@ theorem glue_default_transparent (cfg : Cfg) (hk : MemoKeyInj cfg) (hce : cfg.co
     (run_inv hk hce evs {} (inv_empty cfg) hl) (fun h => by cases h)
     (by intro p hp; rw [List.mem_map] at hp; obtain ⟨u, -, rfl⟩ := hp; rfl)).1
   rw [h, List.map_map]; rfl
+
+/-- **index requests**, which first consult the process-wide table of parsed indexes (`globalIndexCache`, keyed by
+URL@ETag, shared by all builds of a process with or without the disk cache): after any history the answer is a
+complete body served under the index URL or an error, and — through a cache object whose memo is current or that has
+no memo — exactly the answer the build WITHOUT the disk cache gets at the same moment in the same process -/
+theorem glue_index_transparent (cfg : Cfg) (hk : MemoKeyInj cfg) (hce : cfg.copyErrKept = true) (evs : List Ev)
+    (hl : Legal cfg evs {}) (c : CacheId) (m : Bool) (u : Url) (hm : m = true → MemoCurrent cfg (run cfg evs {}) c) :
+    (fetchIndex cfg (run cfg evs {}) c m u false).2 = (fetchIndexDirect (run cfg evs {}) u).2 ∧
+    ∀ cut b compl, (fetchIndex cfg (run cfg evs {}) c m u cut).2 = some (b, compl) →
+      compl = true ∧ ∃ e, (u, e, b) ∈ (run cfg evs {}).srv :=
+  have hinv := run_inv hk hce evs {} (inv_empty cfg) hl
+  ⟨fetchIndex_transparent hk hinv c m u hm, fun cut b compl h => (fetchIndex_spec hk hce hinv c m u cut).2.2 b compl h⟩
 
 /-- a cut connection: the caller gets an error (or the entry that was already there), the set of advertised
 entries does not change -/
@@ -1262,10 +1300,20 @@ theorem offline_served_partial_tmp_before_fix :
     answers ⟨keysDir, id, true, false⟩ [.publish 1 1 11, .fetch 1 true 1 true, .offline 1] {} = [none, some (11, false)] ∧
     answers (cfgReal keysDir) [.publish 1 1 11, .fetch 1 true 1 true, .offline 1] {} = [none, none] := by decide
 
+/-- what the thorough tier found in the first version of this model: after a build WITHOUT the disk cache, a build
+with it in the same process is answered from the table of parsed indexes and leaves NO index entry behind (the
+offline build that follows has nothing to read); in a fresh process the entry is written -/
+theorem parsed_table_hides_the_disk_cache :
+    (run (cfgReal keysDir) [.publish 0 1 10, .indexDirect 0, .index 1 true 0 false] {}).files = [] ∧
+    answers (cfgReal keysDir) [.publish 0 1 10, .indexDirect 0, .index 1 true 0 false, .exit, .offline 0] {}
+      = [some (10, true), some (10, true), none] ∧
+    answers (cfgReal keysDir) [.publish 0 1 10, .indexDirect 0, .exit, .index 1 true 0 false, .exit, .offline 0] {}
+      = [some (10, true), some (10, true), some (10, true)] := by decide
+
 /-- the hypotheses are satisfiable by the code's configuration and a non-trivial history -/
 example : MemoKeyInj (cfgReal keysDir) ∧ (cfgReal keysDir).copyErrKept = true ∧
     Legal (cfgReal keysDir) [.publish 0 1 10, .publish 1 2 11, .fetch 1 true 1 false, .fetch 1 true 0 true, .exit,
-      .publish 0 3 30, .fetch 2 true 0 false, .offline 0] {} :=
+      .publish 0 3 30, .index 2 true 0 false, .indexDirect 0, .offline 0] {} :=
   ⟨fun _ _ h => h, rfl, legalB_sound _ _ _ (by decide)⟩
 
 end glue
